@@ -61,8 +61,9 @@ def run_tlc(module, cfg=None, tag=None, dump=False, workers=8, simulate=None, de
     res["invariant_violated"] = re.findall(r"Invariant (\S+) is violated", out)
     res["action_property_violated"] = re.findall(r"Action property (\S+) is violated", out)
     res["no_error"] = "No error has been found" in out
+    res["postcondition_false"] = bool(re.search(r"Postcondition \S+ .*is false", out))
     if p.returncode != 0 and not res["invariant_violated"] and not res["action_property_violated"] \
-            and "Deadlock reached" not in out and "is violated" not in out:
+            and "Deadlock reached" not in out and "is violated" not in out and not res["postcondition_false"]:
         raise TLCFailure("TLC failed (rc=%d) on %s/%s; see %s\n%s" % (p.returncode, module, cfg, res["log"], out[-3000:]))
     return res
 
